@@ -305,7 +305,8 @@ def check_cart(ctx, case):
         x, y, mv, want = good[gi]
         args = (numpy.array([x]), numpy.array([y]), numpy.array([mv]))
         o1 = call(fore.get_rates, *args)
-        call(fore.get_rates, numpy.array([x]), numpy.array([y]), numpy.array([float(edges[0]) - 1.0]))
+        xb, yb = good[(gi + 1 + len(good) // 2) % len(good)][:2]       # the refused point lies in another row's box (when there is one)
+        call(fore.get_rates, numpy.array([xb]), numpy.array([yb]), numpy.array([float(edges[0]) - 1.0]))
         o2 = call(fore.get_rates, *args)
         ctx.count("lookups_repeated_after_a_refused_one")
         if not (o1.ok and o2.ok):
